@@ -136,7 +136,9 @@ func (t *ProgressTelemetry) checkProgress() {
 	for t.writer.IsRenderInProgress() {
 		select {
 		case <-ticker.C:
-			if t.writer.LengthActive() == 0 {
+			// nothing registered yet is not completion: trackers are registered
+			// after Start, possibly more than one check interval later
+			if t.writer.Length() > 0 && t.writer.LengthActive() == 0 {
 				t.writer.Stop()
 			}
 		case <-t.chDone:
